@@ -415,55 +415,83 @@ theorem weightedLca_unknown (kws : List (Nat × Nat)) (h : ∃ kw ∈ kws, resol
 theorem weightedLca_empty : weightedLca t fuel [] = .ok none := by
   cases fuel <;> simp [weightedLca, taxDist, wlcaNodes, mkItems, wloop, mkLevels, argMax, firstAnswer]
 
-/-! ### 6b. zero counts, merged taxids and several keys for one taxon in `merged_taxid` (second pass)
+/-! ### 6b. zero counts, merged taxids and several keys for one taxon in `merged_taxid` (second and third pass)
 
-FULL STATEMENT WANTED: for every `merged_taxid` map of known taxids, `Taxonomy.LCA(sequence, 1.0)` is the deepest
-common ancestor of the taxa having a positive count, whatever the iteration order of the Go map.  The code does not
-satisfy it: `TaxonomicDistribution` does `taxons[t] = v` (not `+=`), so when two keys of the map designate the same
-taxon (a merged taxid and its current taxid) the key met LAST decides the count (`taxonomicDistribution_last_wins`),
-and if one count is zero and the other is not the answer depends on the map order
-(`weightedLca_order_counterexample`).  Proved: the statement under `hcons` — the keys of one taxon agree on
-"count > 0" (always true when no count is zero, or when no taxon has two keys) — which is exactly the decidable
-hypothesis excluding that case. -/
+FULL STATEMENT: for every `merged_taxid` map of known taxids, `Taxonomy.LCA(sequence, 1.0)` is the deepest common
+ancestor of the taxa having a positive (summed) count, whatever the iteration order of the Go map.  The code did not
+satisfy it: `TaxonomicDistribution` did `taxons[t] = v`, so when two keys of the map designate the same taxon (a
+merged taxid and its current taxid) the key met LAST decided the count and, one count being zero and the other not,
+the answer depended on the map order (`weightedLca_order_counterexample`, on the kept transcription `taxDistAssign` /
+`weightedLcaAssign` of that code).  Repaired in /repo by 5d9c1cf (`taxons[t] += v`); the model `taxDist` follows the
+repaired code and the full statement is proved with no side condition on the map. -/
 
-/-- zero counts are ignored (all counts zero: the root), merged taxids and duplicate keys are harmless under
-`hcons`, the values of the positive counts are irrelevant -/
-theorem weightedLca_counts_partial (wf : WF t root depth) (hf : FuelOK t fuel) (ha : AliasOK t)
-    (kws : List (Nat × Nat)) (hr : ∀ kw ∈ kws, (resolve t kw.1).isSome)
-    (hcons : ∀ kw ∈ kws, ∀ kw' ∈ kws, resolve t kw.1 = resolve t kw'.1 → (0 < kw.2 ↔ 0 < kw'.2)) :
+/-- `Taxonomy.LCA(sequence, 1.0)` on ANY `merged_taxid` map of known taxids (zero counts, merged taxids, several keys
+for one taxon allowed): the answer is the deepest common ancestor of the taxa whose SUMMED count — over the keys that
+designate them — is positive; a non-empty map whose counts are all zero gives the root (as the code does); the values
+of the positive counts are irrelevant.  (Empty map: `weightedLca_empty`, the nil taxon.) -/
+theorem weightedLca_counts (wf : WF t root depth) (hf : FuelOK t fuel) (ha : AliasOK t)
+    (kws : List (Nat × Nat)) (hr : ∀ kw ∈ kws, (resolve t kw.1).isSome) :
     (kws ≠ [] → (∀ kw ∈ kws, kw.2 = 0) → weightedLca t fuel kws = .ok (some root)) ∧
     ((∃ kw ∈ kws, 0 < kw.2) → ∃ z, weightedLca t fuel kws = .ok (some z) ∧
-      ∀ a, Anc t a z ↔ ∀ kw ∈ kws, 0 < kw.2 → ∃ y, resolve t kw.1 = some y ∧ Anc t a y) :=
-  weightedLca_zero_dup wf hf ha kws hr hcons
+      (∀ a, Anc t a z ↔ ∀ y, 0 < taxCount t y kws → Anc t a y) ∧
+      (∀ a, Anc t a z ↔ ∀ kw ∈ kws, 0 < kw.2 → ∃ y, resolve t kw.1 = some y ∧ Anc t a y)) := by
+  refine ⟨(weightedLca_sum wf hf ha kws hr).1, fun hpos => ?_⟩
+  obtain ⟨z, hz, cz⟩ := (weightedLca_sum wf hf ha kws hr).2 hpos
+  obtain ⟨z', hz', cz'⟩ := weightedLca_sum_keys wf hf ha kws hr hpos
+  rw [hz] at hz'; cases hz'
+  exact ⟨z, hz, cz, cz'⟩
 
-/-- … and then the answer does not depend on the order in which Go's map iteration yields the keys -/
-theorem weightedLca_order_free_partial (wf : WF t root depth) (hf : FuelOK t fuel) (ha : AliasOK t)
-    (kws kws' : List (Nat × Nat)) (hp : kws.Perm kws') (hr : ∀ kw ∈ kws, (resolve t kw.1).isSome)
-    (hcons : ∀ kw ∈ kws, ∀ kw' ∈ kws, resolve t kw.1 = resolve t kw'.1 → (0 < kw.2 ↔ 0 < kw'.2)) :
+/-- the summed count of a taxon is positive exactly when one of the keys designating it has a positive count -/
+theorem taxCount_pos (y : Nat) (kws : List (Nat × Nat)) :
+    0 < taxCount t y kws ↔ ∃ kw ∈ kws, resolve t kw.1 = some y ∧ 0 < kw.2 :=
+  taxCount_pos_iff y kws
+
+/-- the answer does not depend on the order in which Go's map iteration yields the keys: for every permutation of
+the key list the same result (no hypothesis on the counts) -/
+theorem weightedLca_order_free (wf : WF t root depth) (hf : FuelOK t fuel) (ha : AliasOK t)
+    (kws kws' : List (Nat × Nat)) (hp : kws.Perm kws') (hr : ∀ kw ∈ kws, (resolve t kw.1).isSome) :
     weightedLca t fuel kws' = weightedLca t fuel kws :=
-  weightedLca_perm_any wf hf ha kws kws' hp hr hcons
+  weightedLca_perm_any wf hf ha kws kws' hp hr
 
-/-- `TaxonomicDistribution`: one entry per taxon designated by a key, holding the count of the LAST key (in
-iteration order) that designates it -/
-theorem taxonomicDistribution_last_wins (kws : List (Nat × Nat)) (hr : ∀ kw ∈ kws, (resolve t kw.1).isSome) :
+/-- `TaxonomicDistribution`: one entry per taxon designated by a key, holding the SUM of the counts of the keys
+that designate it (order independent: `taxCount_perm`) -/
+theorem taxonomicDistribution_sums (kws : List (Nat × Nat)) (hr : ∀ kw ∈ kws, (resolve t kw.1).isSome) :
     ∃ dist, taxDist t kws [] = .ok dist ∧ (dist.map (·.1)).Nodup ∧
+      (∀ y, y ∈ dist.map (·.1) ↔ ∃ kw ∈ kws, resolve t kw.1 = some y) ∧
+      (∀ x w, (x, w) ∈ dist → w = taxCount t x kws) ∧
+      (∀ kws', kws.Perm kws' → ∀ x, taxCount t x kws' = taxCount t x kws) :=  by
+  obtain ⟨dist, h1, h2, h3, h4⟩ := taxDist_sum kws hr
+  exact ⟨dist, h1, h2, h3, h4, fun _ hp x => (taxCount_perm x hp).symm⟩
+
+/-- history — the UNREPAIRED `TaxonomicDistribution` (`taxDistAssign`, `taxons[t] = v`): one entry per taxon designated
+by a key, holding the count of the LAST key (in iteration order) that designates it -/
+theorem taxDistAssign_last_wins (kws : List (Nat × Nat)) (hr : ∀ kw ∈ kws, (resolve t kw.1).isSome) :
+    ∃ dist, taxDistAssign t kws [] = .ok dist ∧ (dist.map (·.1)).Nodup ∧
       (∀ y, y ∈ dist.map (·.1) ↔ ∃ kw ∈ kws, resolve t kw.1 = some y) ∧
       (∀ x w, (x, w) ∈ dist → ∃ l1 kw l2, kws = l1 ++ kw :: l2 ∧ resolve t kw.1 = some x ∧ kw.2 = w ∧
         ∀ kw' ∈ l2, resolve t kw'.1 ≠ some x) := by
-  obtain ⟨dist, h1, h2, h3, _⟩ := taxDist_spec kws hr
-  exact ⟨dist, h1, h2, h3, taxDist_last kws dist h1⟩
+  obtain ⟨dist, h1, h2, h3, _⟩ := taxDistAssign_spec kws hr
+  exact ⟨dist, h1, h2, h3, taxDistAssign_last kws dist h1⟩
 
-/-- the counterexample to the full statement (9 is a merged taxid of 3): the two orders of the same map give the
-LCA of {3, 5} = 1 (what the tree implies) and 5 -/
+/-- history — the counterexample to the full statement for the UNREPAIRED assignment semantics (9 is a merged taxid
+of 3): the two orders of the same map gave the LCA of {3, 5} = 1 (what the tree implies) and 5; the repaired code
+answers 1 for both orders -/
 theorem weightedLca_order_counterexample :
+    weightedLcaAssign exT 6 [(3, 0), (9, 2), (5, 1)] = .ok (some 1) ∧
+    weightedLcaAssign exT 6 [(9, 2), (3, 0), (5, 1)] = .ok (some 5) ∧
+    [(3, 0), (9, 2), (5, 1)].Perm [(9, 2), (3, 0), (5, 1)] ∧
     weightedLca exT 6 [(3, 0), (9, 2), (5, 1)] = .ok (some 1) ∧
-    weightedLca exT 6 [(9, 2), (3, 0), (5, 1)] = .ok (some 5) ∧
-    [(3, 0), (9, 2), (5, 1)].Perm [(9, 2), (3, 0), (5, 1)] := ⟨rfl, rfl, List.Perm.swap _ _ _⟩
+    weightedLca exT 6 [(9, 2), (3, 0), (5, 1)] = .ok (some 1) := ⟨rfl, rfl, List.Perm.swap _ _ _, rfl, rfl⟩
 
 example : ∃ z, weightedLca exT 6 [(3, 1), (9, 5), (4, 2), (10, 3), (5, 0)] = .ok (some z) ∧
-    ∀ a, Anc exT a z ↔ ∀ kw ∈ [(3, 1), (9, 5), (4, 2), (10, 3), (5, 0)], 0 < kw.2 →
-      ∃ y, resolve exT kw.1 = some y ∧ Anc exT a y :=
-  (weightedLca_counts_partial exT_wf exT_fuel exT_aliasOK _ (by decide) (by decide)).2 ⟨(3, 1), by decide⟩
+    (∀ a, Anc exT a z ↔ ∀ y, 0 < taxCount exT y [(3, 1), (9, 5), (4, 2), (10, 3), (5, 0)] → Anc exT a y) ∧
+    (∀ a, Anc exT a z ↔ ∀ kw ∈ [(3, 1), (9, 5), (4, 2), (10, 3), (5, 0)], 0 < kw.2 →
+      ∃ y, resolve exT kw.1 = some y ∧ Anc exT a y) :=
+  (weightedLca_counts exT_wf exT_fuel exT_aliasOK _ (by decide)).2 ⟨(3, 1), by decide⟩
+
+/-- a zero count under the taxid and a positive one under its merged taxid, both orders -/
+example : weightedLca exT 6 [(9, 2), (3, 0), (5, 1)] = weightedLca exT 6 [(3, 0), (9, 2), (5, 1)] :=
+  weightedLca_order_free exT_wf exT_fuel exT_aliasOK _ _ (List.Perm.swap _ _ _) (by decide)
 
 /-! ## 7. the hypotheses are satisfiable: a concrete taxonomy (non-vacuity; the `example`s that compute
 are tests of the model on this one taxonomy, not proofs of the property)
